@@ -167,6 +167,22 @@ def install(ex):
     S["math/bits.Len16"] = bits_len(16)
     S["math/bits.Len8"] = bits_len(8)
 
+    def bits_tz(bits):
+        return lambda ex, st, args, ins: ex.A.trailing_zeros(args[0], bits)
+
+    def bits_lz(bits):
+        def f(ex, st, args, ins):
+            ln = ex.A.bits_len(args[0], bits)
+            return ex.A.binop("-", bits, ln, 64, True)
+        return f
+
+    def bits_oc(bits):
+        return lambda ex, st, args, ins: ex.A.ones_count(args[0], bits)
+    for suf, b in (("", 64), ("64", 64), ("32", 32), ("16", 16), ("8", 8)):
+        S["math/bits.TrailingZeros" + suf] = bits_tz(b)
+        S["math/bits.LeadingZeros" + suf] = bits_lz(b)
+        S["math/bits.OnesCount" + suf] = bits_oc(b)
+
     # ---------------------------------------------------------------- sync.Pool
     # ghost "pools": tuple of (pool Ptr, value). Get may return nil or any stored element of that pool.
     def pool_put(ex, st, args, ins):
@@ -345,6 +361,55 @@ def install_contracts(ex, names):
         if buf.ptr is not None:
             st.ghost["bs_released"] = st.ghost.get("bs_released", ()) + (buf.ptr.obj,)
         return None
+
+    RB = "github.com/panjf2000/gnet/v2/pkg/pool/ringbuffer."
+    RING = "github.com/panjf2000/gnet/v2/pkg/buffer/ring.Buffer"
+
+    def ring_layout():
+        # find the struct type ring.Buffer to build a value in field order (buf,size,r,w,isEmpty)
+        for tid, t in enumerate(ex.p.types):
+            if t["k"] == "named" and t["name"] == RING:
+                return tid
+        raise Unsupported("ring.Buffer type not in dump")
+
+    def rb_get(ex, st, args, ins):
+        """contract (established under C12): an EMPTY ring of arbitrary capacity, not shared with any other holder"""
+        tid = ring_layout()
+        fields = [f["n"] for f in ex.p.U(tid)["fields"]]
+
+        def mk(s2, zero):
+            if zero:
+                vals = {"buf": NIL_SLICE, "size": 0, "r": 0, "w": 0, "isEmpty": True}
+            else:
+                size = ex.A.fresh(ex.fresh_name("rbsize"), 64, True)
+                s2.pc.append(ex.A.cmp(">=", size, 1))
+                s2.pc.append(ex.A.cmp("<=", size, ex.maxlen))
+                base = ex.new_base("rbmem")
+                bp = ex.alloc(s2, Bytes(base, size), "rbm")
+                vals = {"buf": SliceV(bp, 0, size, size), "size": size, "r": 0, "w": 0, "isEmpty": True}
+            s2.events.append("rbPool.Get")
+            return ex.alloc(s2, StructV(vals[f] for f in fields), "ring")
+        return ForkResult([(True, lambda s2: mk(s2, True)), (True, lambda s2: mk(s2, False))], lazy=True)
+
+    def rb_put(ex, st, args, ins):
+        b = args[-1]
+        if b is None:
+            raise GoPanic("ringbuffer.Put(nil)")
+        n = st.ghost.get("rb_put_count", 0)
+        st.ghost["rb_put_count"] = n + 1
+        st.ghost["rb_released"] = st.ghost.get("rb_released", ()) + (b.obj,)
+        st.events.append("rbPool.Put")
+        return None
+
+    if "ringbuffer" in names:
+        S[RB + "Get"] = rb_get
+        S[RB + "Put"] = rb_put
+        S["(*" + RB + "Pool).Get"] = rb_get
+        S["(*" + RB + "Pool).Put"] = rb_put
+
+        def vRbPutCount(ex, st, args, ins):
+            return st.ghost.get("rb_put_count", 0)
+        ex.intrinsics["vRbPutCount"] = vRbPutCount
 
     if "byteslice" in names:
         S[BS + "Get"] = lambda ex, st, args, ins: bs_get_impl(ex, st, args[0])
